@@ -199,6 +199,17 @@ inductive KeyTry
   | fail (e : Err)            -- `return nil, err`
   | opened (pt : Bytes) (c : Ctx) (cfg : Bytes)
 
+/-- the receiver context a candidate key would use: the stored one (retry) or a fresh one -/
+def candCtx (H : Hpke) (st : St) (ech : EchExt) (k : Key) (cfg : ConfigSpec) : Except KeyTry Ctx :=
+  match st.ctx with
+  | some c => .ok c
+  | none =>
+    if ech.enc.length > 0 then
+      if ¬ H.privOk.contains (cfg.kem, k.priv) then .error (.fail .other)
+      else if ¬ H.setupOk.contains (k.priv, cfg.kem, ech.kdf, ech.aead, ech.enc) then .error .next
+      else .ok ⟨k.priv, cfg.kem, ech.kdf, ech.aead, "tls ech\x00".toUTF8.toList ++ k.config, ech.enc, 0⟩
+    else .error (.fail .illegal)
+
 /-- one iteration of the key loop -/
 def tryKey (H : Hpke) (st : St) (h : Hello) (ech : EchExt) (k : Key) : KeyTry :=
   match configSpec k.config with
@@ -206,16 +217,7 @@ def tryKey (H : Hpke) (st : St) (h : Hello) (ech : EchExt) (k : Key) : KeyTry :=
   | some cfg =>
     if cfg.id ≠ ech.configId ∨ ¬ cfg.suites.any (fun s => s.kdf = ech.kdf ∧ s.aead = ech.aead) then .next else
     if st.ctx.isSome ∧ st.ctxConfig ≠ k.config then .next else
-    let cand : Except KeyTry Ctx :=
-      match st.ctx with
-      | some c => .ok c
-      | none =>
-        if ech.enc.length > 0 then
-          if ¬ H.privOk.contains (cfg.kem, k.priv) then .error (.fail .other)
-          else if ¬ H.setupOk.contains (k.priv, cfg.kem, ech.kdf, ech.aead, ech.enc) then .error .next
-          else .ok ⟨k.priv, cfg.kem, ech.kdf, ech.aead, "tls ech\x00".toUTF8.toList ++ k.config, ech.enc, 0⟩
-        else .error (.fail .illegal)
-    match cand with
+    match candCtx H st ech k cfg with
     | .error r => r
     | .ok c =>
       match h.marshalAAD with
@@ -234,30 +236,42 @@ def keyLoop (H : Hpke) (st : St) (h : Hello) (ech : EchExt) : List Key → KeyTr
     | .next => keyLoop H st h ech ks
     | r => r
 
+/-- the extra checks of section 7.1.1 on a retried ClientHelloOuter -/
+def retryPre (st : St) (h : Hello) : Except Err Unit :=
+  match h.d.ech, st.outer.bind (·.d.ech) with
+  | none, _ => .error .missing
+  | some e, some o =>
+    if o.configId ≠ e.configId ∨ o.kdf ≠ e.kdf ∨ o.aead ≠ e.aead ∨ e.enc.length > 0 then .error .illegal else .ok ()
+  | some _, none => .error .panic     -- c.outer.echExt nil dereference
+
+def processCore (H : Hpke) (st : St) (h : Hello) (isRetry : Bool) : Except Err (Option Hello × St) :=
+  match h.d.ech with
+  | none => .ok (none, st)
+  | some ech =>
+    if ¬ h.d.tls13 ∨ st.keys.isEmpty then .ok (none, st) else
+    match keyLoop H st h ech st.keys with
+    | .fail x => .error x
+    | .next => if isRetry then .error .decrypt else .ok (none, st)
+    | .opened pt c cfg =>
+      match decodeInner h pt with
+      | .error x => .error x
+      | .ok inner => .ok (some inner, { st with ctx := some c, ctxConfig := cfg })
+
 /-- `processEncryptedClientHello(h, isRetry)`; `ok none` covers both `nil, nil` and errNoMatch -/
 def process (H : Hpke) (st : St) (h : Hello) (isRetry : Bool) : Except Err (Option Hello × St) :=
-  let pre : Except Err Unit :=
-    if isRetry then
-      match h.d.ech, st.outer.bind (·.d.ech) with
-      | none, _ => .error .missing
-      | some e, some o =>
-        if o.configId ≠ e.configId ∨ o.kdf ≠ e.kdf ∨ o.aead ≠ e.aead ∨ e.enc.length > 0 then .error .illegal else .ok ()
-      | some _, none => .error .panic     -- c.outer.echExt nil dereference
-    else .ok ()
-  match pre with
-  | .error x => .error x
-  | .ok () =>
-    match h.d.ech with
-    | none => .ok (none, st)
-    | some ech =>
-      if ¬ h.d.tls13 ∨ st.keys.isEmpty then .ok (none, st) else
-      match keyLoop H st h ech st.keys with
-      | .fail x => .error x
-      | .next => if isRetry then .error .decrypt else .ok (none, st)
-      | .opened pt c cfg =>
-        match decodeInner h pt with
-        | .error x => .error x
-        | .ok inner => .ok (some inner, { st with ctx := some c, ctxConfig := cfg })
+  if isRetry then
+    match retryPre st h with
+    | .error x => .error x
+    | .ok () => processCore H st h true
+  else processCore H st h false
+
+/-- the `if isRetry { … mismatch … }` check of handleClientHello -/
+def retryCheck (st : St) (inner : Option Hello) : Except Err Unit :=
+  match inner, st.inner with
+  | some i, some ci =>
+    if i.d.ech.isNone ∨ ci.d.serverName ≠ i.d.serverName ∨ ci.d.alpn ≠ i.d.alpn then .error .illegal else .ok ()
+  | none, _ => .error .illegal
+  | some _, none => .error .panic  -- c.inner nil dereference
 
 /-- `handleClientHello(record, isRetry)` -/
 def handle (H : Hpke) (st : St) (record : Bytes) (isRetry : Bool) :
@@ -271,12 +285,9 @@ def handle (H : Hpke) (st : St) (record : Bytes) (isRetry : Bool) :
     | .error x => .error x
     | .ok (inner, st') =>
       if isRetry then
-        match inner, st.inner with
-        | some i, some ci =>
-          if i.d.ech.isNone ∨ ci.d.serverName ≠ i.d.serverName ∨ ci.d.alpn ≠ i.d.alpn then .error .illegal
-          else .ok (outer, inner, st')
-        | none, _ => .error .illegal
-        | some _, none => .error .panic  -- c.inner nil dereference
+        match retryCheck st inner with
+        | .error x => .error x
+        | .ok () => .ok (outer, inner, st')
       else .ok (outer, inner, st')
 
 /-! ### NewConn -/
@@ -286,24 +297,28 @@ structure NewResult where
   tr : Tr
 deriving Repr
 
+def failNew (e : Err) (st : St) (t : Tr) : NewResult := ⟨some e, st, alertRaw e t⟩
+
+/-- the state NewConn builds after a successful handleClientHello -/
+def afterHello (st1 : St) (outer : Hello) (inner : Option Hello) : St :=
+  { st1 with outer := some outer, inner := inner, readPT := inner.isNone, writePT := inner.isNone }
+
+def firstMarshal (outer : Hello) (inner : Option Hello) : Except Err Bytes :=
+  match inner with
+  | some i => i.marshal
+  | none => outer.marshal
+
 def newConn (H : Hpke) (keys : List Key) (t : Tr) : NewResult :=
-  let fail (e : Err) (st : St) (t : Tr) : NewResult := ⟨some e, st, alertRaw e t⟩
   match readRecord t with
-  | (_, some e, t1) => fail e {} t1
+  | (_, some e, t1) => failNew e {} t1
   | (record, none, t1) =>
-    if record.head? ≠ some 22 then fail .unexpected {} t1 else
-    let st0 : St := { keys := keys }
-    match handle H st0 record false with
-    | .error e => fail e st0 t1
+    if record.head? ≠ some 22 then failNew .unexpected {} t1 else
+    match handle H { keys := keys } record false with
+    | .error e => failNew e { keys := keys } t1
     | .ok (outer, inner, st1) =>
-      let st2 := { st1 with outer := some outer, inner := inner,
-                            readPT := inner.isNone, writePT := inner.isNone }
-      let m := match inner with
-        | some i => i.marshal
-        | none => outer.marshal
-      match m with
-      | .error e => fail e st2 t1
-      | .ok buf => ⟨none, { st2 with readBuf := buf }, t1⟩
+      match firstMarshal outer inner with
+      | .error e => failNew e (afterHello st1 outer inner) t1
+      | .ok buf => ⟨none, { afterHello st1 outer inner with readBuf := buf }, t1⟩
 
 def St.accepted (st : St) : Bool := st.inner.isSome
 def St.presented (st : St) : Bool := (st.outer.bind (·.d.ech)).any (·.typ = 0)
@@ -320,11 +335,12 @@ def St.alpn (st : St) : List Bytes :=
 
 /-! ### Conn.Write / inspectWrite -/
 
+/-- handshake message type of a record (0 for an empty record) -/
+def msgTypeOf (record : Bytes) : Option UInt8 := if record.length > 5 then record[5]? else some 0
+
 def inspectWrite (st : St) (record : Bytes) : Except Err St :=
-  let recType := record.head?
-  let msgType : Option UInt8 := if record.length > 5 then record[5]? else some 0
-  if recType = some 23 then .ok { st with writePT := true }
-  else if recType = some 22 ∧ msgType = some 2 then
+  if record.head? = some 23 then .ok { st with writePT := true }
+  else if record.head? = some 22 ∧ msgTypeOf record = some 2 then
     match parseServerHello (record.drop 5) with
     | .error _ => .error .decode
     | .ok hrr => if hrr then .ok { st with writePT := true, retry := st.retry + 1 } else .ok st
@@ -342,14 +358,12 @@ def writeLoop : Nat → Nat → St → Tr → WriteResult
   | 0, blen, st, t => ⟨blen, none, st, t⟩
   | fuel+1, blen, st, t =>
     if st.writeBuf.length < 5 then ⟨blen, none, st, t⟩ else
-    let length := recLen st.writeBuf
-    if length > maxRecordLength then ⟨0, some .decode, st, t⟩ else
-    let sz := length + 5
-    if sz > st.writeBuf.length then ⟨blen, none, st, t⟩ else
-    match inspectWrite st (st.writeBuf.take sz) with
+    if recLen st.writeBuf > maxRecordLength then ⟨0, some .decode, st, t⟩ else
+    if recLen st.writeBuf + 5 > st.writeBuf.length then ⟨blen, none, st, t⟩ else
+    match inspectWrite st (st.writeBuf.take (recLen st.writeBuf + 5)) with
     | .error e => ⟨0, some e, st, t⟩
     | .ok st1 =>
-      match t.write (st1.writeBuf.take sz) with
+      match t.write (st1.writeBuf.take (recLen st.writeBuf + 5)) with
       | (n, some e, t1) => ⟨min blen n, some (.io e), { st1 with writeBuf := st1.writeBuf.drop n }, t1⟩
       | (n, none, t1) => writeLoop fuel blen { st1 with writeBuf := st1.writeBuf.drop n } t1
 
@@ -358,14 +372,12 @@ def connWrite (st : St) (t : Tr) (b : Bytes) : WriteResult :=
     match t.write b with
     | (n, e, t1) => ⟨n, e.map .io, st, t1⟩
   else
-    let st1 := { st with writeBuf := st.writeBuf ++ b }
-    writeLoop (st1.writeBuf.length + 1) b.length st1 t
+    writeLoop ((st.writeBuf ++ b).length + 1) b.length { st with writeBuf := st.writeBuf ++ b } t
 
 /-- `convertErrorsToAlerts(c, err)` with `c` the Conn itself: the alert goes through Conn.Write,
     then the embedded transport is closed -/
 def alertViaConn (e : Err) (st : St) (t : Tr) : St × Tr :=
-  let r := connWrite st t (alertRecord e)
-  (r.st, r.tr.close)
+  ((connWrite st t (alertRecord e)).st, (connWrite st t (alertRecord e)).tr.close)
 
 /-! ### Conn.Read -/
 structure ReadResult where
@@ -375,37 +387,42 @@ structure ReadResult where
   tr : Tr
 deriving Repr
 
+/-- the tail of Conn.Read: hand out buffered bytes, else the stored error, else the transport -/
+def deliver (n : Nat) (st : St) (t : Tr) : ReadResult :=
+  if st.readBuf ≠ [] then
+    ⟨st.readBuf.take n, if st.readBuf.drop n = [] then st.readErr else none, { st with readBuf := st.readBuf.drop n }, t⟩
+  else
+    match st.readErr with
+    | some e => ⟨[], some e, st, t⟩
+    | none =>
+      match t.read1 n with
+      | (d, e, t') => ⟨d, e.map .io, st, t'⟩
+
+/-- a retried ClientHello record `r` met while `retry = 1` -/
+def readRetry (H : Hpke) (n : Nat) (st : St) (t1 : Tr) (r : Bytes) : ReadResult :=
+  match handle H { st with readPT := true } r true with
+  | .error e =>
+    ⟨[], some e, (alertViaConn e { st with readPT := true, readErr := some e } t1).1,
+                 (alertViaConn e { st with readPT := true, readErr := some e } t1).2⟩
+  | .ok (_, inner, st2) =>
+    match inner with
+    | none => ⟨[], some .panic, st2, t1⟩     -- unreachable: handle(retry) never returns a nil inner
+    | some i =>
+      match i.marshal with
+      | .error e => deliver n { st2 with readErr := some e, readBuf := [] } t1
+      | .ok buf => deliver n { st2 with readBuf := buf } t1
+
+def isRetryHello (st : St) (r : Bytes) : Bool :=
+  r.head? = some 22 ∧ r.length > 5 ∧ r[5]? = some 1 ∧ st.retry = 1
+
 def connRead (H : Hpke) (st : St) (t : Tr) (n : Nat) : ReadResult :=
-  let deliver (st : St) (t : Tr) : ReadResult :=
-    if st.readBuf ≠ [] then
-      let d := st.readBuf.take n
-      let rest := st.readBuf.drop n
-      ⟨d, if rest = [] then st.readErr else none, { st with readBuf := rest }, t⟩
-    else
-      match st.readErr with
-      | some e => ⟨[], some e, st, t⟩
-      | none =>
-        match t.read1 n with
-        | (d, e, t') => ⟨d, e.map .io, st, t'⟩
   if ¬ st.readPT ∧ st.readBuf = [] ∧ st.readErr.isNone then
     match readRecord t with
-    | (r, some e, t1) => deliver { st with readErr := some e, readBuf := r } t1
+    | (r, some e, t1) => deliver n { st with readErr := some e, readBuf := r } t1
     | (r, none, t1) =>
-      if r.head? = some 23 then deliver { st with readPT := true, readBuf := r } t1
-      else if r.head? = some 22 ∧ r.length > 5 ∧ r[5]? = some 1 ∧ st.retry = 1 then
-        let st1 := { st with readPT := true }
-        match handle H st1 r true with
-        | .error e =>
-          let (st2, t2) := alertViaConn e { st1 with readErr := some e } t1
-          ⟨[], some e, st2, t2⟩
-        | .ok (_, inner, st2) =>
-          match inner with
-          | none => ⟨[], some .panic, st2, t1⟩     -- unreachable: handle(retry) never returns nil inner
-          | some i =>
-            match i.marshal with
-            | .error e => deliver { st2 with readErr := some e, readBuf := [] } t1
-            | .ok buf => deliver { st2 with readBuf := buf } t1
-      else deliver { st with readBuf := r } t1
-  else deliver st t
+      if r.head? = some 23 then deliver n { st with readPT := true, readBuf := r } t1
+      else if isRetryHello st r then readRetry H n st t1 r
+      else deliver n { st with readBuf := r } t1
+  else deliver n st t
 
 end ECH
